@@ -56,7 +56,10 @@ pub fn run_parallel(opts: &Opts, prop: &str, rule: &str, total: u64,
                 for i in 0..per {
                     if ctx.rep.full() { break; }
                     // strided global index: worker w handles w, w+n, w+2n, ...
+                    let t0 = std::time::Instant::now();
                     f(&mut ctx, w as u64 + i * nthreads as u64);
+                    let dt = t0.elapsed().as_millis() as u64;
+                    if dt > 1500 { ctx.rep.bump("slow_cases_over_1500ms"); if ctx.rep.notes.len() < 3 { ctx.rep.notes.push(format!("slow case index {} took {} ms", w as u64 + i * nthreads as u64, dt)); } }
                 }
                 ctx.rep.add("oracle_calls", ctx.drv.oracle_calls);
                 ctx.rep
